@@ -72,7 +72,7 @@ CLAIMED = {
          "DESIGN.md §3-C14"),
  "C12": ("functional contracts on StoreSignedVAA / GetSignedVAABytes / FindEmitterSequenceGap / GetGovernanceVAABatch verified against an assumed model of badger (store = ghost map VAAID -> bytes through the key format that govc extracts from (*VAAID).Bytes on every run; View/Update run once, Update atomic; Get not-found iff absent; the Seek/ValidForPrefix/Next idiom visits each key with the prefix once); format-structured strings: prefix tests, LastIndex/slicing and ParseUint on Sprintf results are decided segment-wise (a pattern that ends inside a %d matches every number starting with those digits); loop invariants over the iteration's visited set; contracts on the three public RPC lookups and on find-missing-messages; SMT; violations replayed on a real badger store",
          "Deductive proof for every store content and every query: StoreSignedVAA puts exactly the VAA's encoding under exactly its (emitter chain, address, target chain, sequence) identifier and changes no other entry (the key format is proved injective); GetSignedVAABytes returns the bytes of exactly that identifier and not-found exactly for an absent one; FindEmitterSequenceGap reports exactly the sequences between firstSeq and lastSeq that the stream does not hold, lastSeq is the stream's highest sequence, and VAAs of any other emitter chain, address or target chain have no influence (the unterminated prefix let target chain 2 see 25x: found, replayed, repaired); GetGovernanceVAABatch returns exactly the stored VAAs of the governance emitter with a requested sequence, each with the target chain, sequence and bytes of its key; the RPC lookups and find-missing-messages address exactly the identifier / stream the request names (chain ids outside 16 bits and short addresses were folded onto other streams: found, replayed, repaired).",
-         "Trusted: govc, SMT solvers; the badger model and the segment-alignment rules for formatted strings (argued in DESIGN.md §3-C12; decimal renderings are canonical, a literal after %d starts with a non-digit, hex renderings have fixed width); hex.DecodeString/EncodeToString uninterpreted; vaa.Unmarshal/Marshal through their verified contracts (C05). Environment: store invariant wfStore (every stored value carries the sequence of its key; no sequence counter has reached 2^64-1) is a precondition of the stream queries - it is what StoreSignedVAA establishes, the history induction over all writers is not mechanised; firstSeq is 0 by construction of the code (reported as is). The backfill path of find-missing-messages (HTTP) is not verified.",
+         "Trusted: govc, SMT solvers; the badger model and the segment-alignment rules for formatted strings (argued in DESIGN.md §3-C12; decimal renderings are canonical, a literal after %d starts with a non-digit, hex renderings have fixed width); hex.DecodeString/EncodeToString uninterpreted; vaa.Unmarshal/Marshal through their verified contracts (C05). Store invariant: every stored value carries the sequence of its key - a precondition of the stream queries that StoreSignedVAA (the only writer) is proved to preserve; environment: no sequence counter has reached 2^64-1; firstSeq is 0 by construction of the code (reported as is). The backfill path of find-missing-messages (HTTP) is not verified.",
          "DESIGN.md §3-C12"),
  "C13": ("zero-annotation no-panic obligations (nil deref, index, slice bounds, nil-map write, explicit panic, make size, callee preconditions) on the seven handlers and Run under the processor's representation invariant, which every handler is proved to re-establish; SMT",
          "Deductive proof that from every state satisfying the representation invariant Inv(p) and for every chain message, observation, inbound VAA, injected VAA, guardian-set update and tick, no handler reaches a panic site and Inv(p) holds again afterwards; Run's loop invariant turns this into 'for every sequence of events'. Two genuine defects found by failing obligations and history replays were repaired (undecodable stored VAA; cleanup before the first guardian set).",
